@@ -382,6 +382,7 @@ fn transition(s: &mut Session, p: &Payload, st: &Stmt, pre: &Mat, out: &mut Work
 
 impl UnitRunner for C04 {
   fn unit(&mut self, payload: &str, unit: u64, out: &mut WorkerOut) {
+    if payload == "machine-statement" { return machine_statement_unit(unit, out); }
     // payload = path of the level file written by the driver
     if !matches!(&self.level, Some((k, _)) if k == payload) {
       let txt = std::fs::read_to_string(payload).expect("level file");
@@ -530,6 +531,8 @@ impl Check for C04 {
       run_jobs(cfg, range_jobs(&path, nunits, 4), &mut |ev| { if let Event::Done(_j, o) = &ev { transitions += o.extra.len() as u64; kind_sweep_transitions += o.extra.len() as u64; } rep.absorb(ev); });
       rep.out.extra.clear();
     }
+    run_jobs(cfg, range_jobs("machine-statement", 8, 1), &mut |ev| rep.absorb(ev));
+    rep.out.extra.clear();
     rep.cov("kind_sweep", json!({"kinds": sweep_kinds, "transitions": kind_sweep_transitions, "depth": 1, "targets": "reduced set (boundary scalars, two-element and full vectors, 1..d, ':', alternating mask per dimension; 1-D repeats)"}));
     // valid-rejected: a violation only where plain assignment through the same target form is supported on this storage class
     let supported = rep.out.sets.get("supported").cloned().unwrap_or_default();
@@ -565,5 +568,53 @@ impl Check for C04 {
       "a valid statement that is rejected counts as a violation only if the same (target form pair, operator, source class) is accepted for some other value/state on that storage class; otherwise the combination is unsupported (e.g. todo!() op-assign forms), listed in evidence, not judged".into(),
     ];
     if transitions < 1000 { rep.vacuity.push(format!("only {} transitions", transitions)); }
+  }
+}
+
+/// every target form with its index values bound as state variables of a machine whose transition *is* the assignment statement
+/// (the one place where a statement runs inside a local environment); globals of the same names hold other positions
+pub const MS_FORMS: [&str; 18] = ["i", "i, j", "i..=j", "[i j]", "i, :", ":, j", "i..=j, :", ":, i..=j", "i..=j, j", "j, i..=j", "i..=j, i..=j", "[i j], j", "j, [i j]", "[i j], [j i]", "[i j], :", ":, [i j]", "i + 1, j", "i, j - 1"];
+
+fn machine_statement_unit(unit: u64, out: &mut WorkerOut) {
+  let ops = ["=", "+=", "-=", "*=", "/="];
+  let kinds = ["f64", "u8"];
+  let (oi, ki) = ((unit % 4) as usize, (unit / 4) as usize);
+  if ki >= kinds.len() { return; }
+  let kind = kinds[ki];
+  let lit = |v: i64| if kind == "u8" { format!("{}u8", v) } else { v.to_string() };
+  let (r, c) = (3usize, 4usize);
+  let vals: Vec<String> = (0..r * c).map(|n| format!("{}", 20 + 2 * n)).collect();
+  let defx = super::c01::define_matrix("x", kind, &vals, r, c).replacen("x<", "~x<", 1);
+  let opset: Vec<&str> = if oi == 0 { vec!["="] } else if oi == 1 { vec!["+=", "-="] } else if oi == 2 { vec!["*=", "/="] } else { vec!["=", "+="] };
+  let srcs: Vec<(&str, String)> = if oi == 3 { vec![("state-variable", "k".to_string())] } else { vec![("literal", lit(2)), ("global-variable", "gs".to_string())] };
+  for (iv, jv) in [(1i64, 2i64), (2, 3), (1, 3)] {
+    for form in MS_FORMS.iter() {
+      for op in opset.iter() { for (sname, src) in srcs.iter() {
+        let subst = |t: &str, a: &str, b: &str| -> String { t.split_inclusive(|ch: char| !ch.is_alphanumeric()).map(|tok| { let (w, rest) = match tok.char_indices().last() { Some((p, ch)) if !ch.is_alphanumeric() => (&tok[..p], &tok[p..]), _ => (tok, "") }; format!("{}{}", match w { "i" => a, "j" => b, o => o }, rest) }).collect() };
+        // reference: the same statement at top level with literal positions (judged on its own by the search above)
+        let mut s1 = Session::new();
+        if !s1.run(&defx).is_value() { out.count("machine_statement_setup_rejected"); return; }
+        s1.run(&format!("gs := {}", lit(2))); s1.run(&format!("k := {}", lit(2)));
+        // a state variable holds a value, not a reference to a variable: its top-level counterpart is the literal
+        let top = format!("x[{}] {} {}", subst(form, &iv.to_string(), &jv.to_string()), op, if *sname == "state-variable" { lit(2) } else { src.clone() });
+        let o1 = s1.run(&top);
+        let x1 = s1.get("x");
+        // subject: the statement as the transition of a machine, positions as state variables, shadowed by globals i := 1, j := 1
+        let mut s2 = Session::new();
+        s2.run(&defx); s2.run(&format!("gs := {}", lit(2))); s2.run("i := 1"); s2.run("j := 1"); s2.run(&format!("k := {}", lit(9)));
+        let machine = format!("#W(i<f64>, j<f64>, k<{kd}>) => <f64>\n  ├ :A(i<f64>, j<f64>, k<{kd}>)\n  └ :D(r<f64>).\n\n#W(i<f64>, j<f64>, k<{kd}>) -> :A(i, j, k)\n  :A(i, j, k)\n    ├ i > 0 -> x[{f}] {op} {src} -> :D(0)\n    └ * -> :D(1)\n  :D(r) => r.", kd = kind, f = form, op = op, src = src);
+        out.evaluations += 1;
+        if !s2.run(&machine).is_value() { out.count("machine_statement_unparsable"); out.set("machine_statement_rejected_forms", &format!("{} {}", form, op)); continue; }
+        let o2 = s2.run(&format!("y := #W({}, {}, {})", iv, jv, lit(2)));
+        let x2 = s2.get("x");
+        let case = format!("{} ; i := 1 ; j := 1 (globals) ; {} ;; y := #W({}, {}, {})   versus   {}", defx, machine.replace('\n', " ⏎ "), iv, jv, lit(2), top);
+        let locus = format!("{}:{}:{}", op, form, sname);
+        if let Outcome::Panic(m) = &o2 { out.fail(format!("C04|panic|machine-statement:{}", locus), case, m.clone()); continue; }
+        out.nontrivial += 1;
+        if x1 != x2 { out.fail(format!("C04|machine-statement-differs|{}", locus), case, format!("at top level x becomes {:?} ({}), as a machine transition {:?} ({})", x1.map(|c| c.short()), o1.short(), x2.map(|c| c.short()), o2.short())); }
+        else if o1.is_value() != o2.is_value() { out.fail(format!("C04|machine-statement-differs|{}", locus), case, format!("top level: {}, machine: {}", o1.short(), o2.short())); }
+        else { out.count(if o1.is_value() { "machine_statement_agrees" } else { "machine_statement_both_rejected" }); }
+      } }
+    }
   }
 }
